@@ -566,7 +566,12 @@ def run(c, prog, ctx):
     # evaluated here as well (a predicate that accepts more scripts makes the guarded index or subtraction reachable)
     from . import c16 as _c16
     PRED = ("is_p2pkh", "is_p2sh", "is_v0_p2wpkh", "is_v0_p2wsh", "is_v1plus_p2witprog", "is_witness_program")
-    c.borrow(_c16, "C16", prog, ctx, lambda rule, k: rule == "R1.template-table" and k.rsplit("|", 1)[1] in PRED, "R1.guard-predicate-table", 5)
+    c.borrow(_c16, "C16", prog, ctx, lambda rule, k: (rule == "R1.template-table" and k.rsplit("|", 1)[1] in PRED) or rule == "R8.classify-total", "R1.guard-predicate-table", 6)
+    # likewise the two expect("n is valid") sites of LockTime::from_consensus are tabled under is_block_height(n) and its
+    # negation: that the height and time predicates are exact complements at the threshold (and what Height/Time::from_consensus
+    # accept) is C01's R7.locktime
+    from . import c01 as _c01
+    c.borrow(_c01, "C01", prog, ctx, lambda rule, k: rule == "R7.locktime" and ("is_block_" in k or "from_consensus" in k), "R1.guard-predicate-table", 4)
     c.floor("R1.discharged-D4", 100, "byte-length sums in encoders")
     c.floor("R1.discharged-D0", 40, "constant-safe sites")
 
